@@ -728,6 +728,7 @@ class _SetOperation(Selectable, Term):  # type:ignore[misc]
         the alias, otherwise the field will be rendered as SQL.
         """
         clauses = []
+        ctx = ctx.copy(subquery=True)
         selected_aliases = {s.alias for s in self.base_query._selects}
         for field, directionality in self._orderbys:
             term = (
@@ -923,7 +924,7 @@ class QueryBuilder(Selectable, Term):  # type:ignore[misc]
             return " DO NOTHING"
         elif len(self._on_conflict_do_updates) > 0:
             updates = []
-            value_ctx = ctx.copy(with_namespace=True)
+            value_ctx = ctx.copy(with_namespace=True, subquery=True)
             for field, value in self._on_conflict_do_updates:
                 if value:
                     updates.append(
@@ -1799,6 +1800,7 @@ class QueryBuilder(Selectable, Term):  # type:ignore[misc]
         otherwise the entire field will be rendered as SQL.
         """
         clauses = []
+        ctx = ctx.copy(subquery=True)
         selected_aliases = {s.alias for s in self._selects}
         for field in self._groupbys:
             if (alias := field.alias) and alias in selected_aliases:
@@ -1834,6 +1836,7 @@ class QueryBuilder(Selectable, Term):  # type:ignore[misc]
         the alias, otherwise the field will be rendered as SQL.
         """
         clauses = []
+        ctx = ctx.copy(subquery=True)
         selected_aliases = {s.alias for s in self._selects}
         for field, directionality in self._orderbys:
             term = (
@@ -1870,11 +1873,12 @@ class QueryBuilder(Selectable, Term):  # type:ignore[misc]
 
     def _set_sql(self, ctx: SqlContext) -> str:
         field_ctx = ctx.copy(with_namespace=False)
+        value_ctx = ctx.copy(subquery=True)
         return " SET {set}".format(
             set=",".join(
                 "{field}={value}".format(
                     field=field.get_sql(field_ctx),
-                    value=value.get_sql(ctx),
+                    value=value.get_sql(value_ctx),
                 )
                 for field, value in self._updates
             )
